@@ -130,7 +130,25 @@ let msg_s (f, m) =
   | MFleetFitAdded -> "FleetFitAdded" | MFleetFitRemoved -> "FleetFitRemoved"
   | MDefaultDmgChanged -> "DefaultIncomingDmgChanged" | MRahDmgChanged -> "RahIncomingDmgChanged")
 
-let do_step o = let (w, r) = step !world o in world := w; res_s r
+let counts : (string, int) Hashtbl.t = Hashtbl.create 32
+let bump k n = Hashtbl.replace counts k (n + (try Hashtbl.find counts k with Not_found -> 0))
+let kind_of = function
+  | MItemAdded _ -> "ItemAdded" | MItemRemoved _ -> "ItemRemoved" | MStatesActivated _ -> "StatesActivated"
+  | MStatesDeactivated _ -> "StatesDeactivated" | MItemLoaded _ -> "ItemLoaded" | MItemUnloaded _ -> "ItemUnloaded"
+  | MStatesActivatedLoaded _ -> "StatesActivatedLoaded" | MStatesDeactivatedLoaded _ -> "StatesDeactivatedLoaded"
+  | MEffectsStarted _ -> "EffectsStarted" | MEffectsStopped _ -> "EffectsStopped"
+  | MEffectApplied _ -> "EffectApplied" | MEffectUnapplied _ -> "EffectUnapplied"
+  | MAttrsChanged _ -> "AttrsValueChanged" | MAttrsChangedMasked _ -> "AttrsValueChangedMasked"
+  | MFleetFitAdded -> "FleetFitAdded" | MFleetFitRemoved -> "FleetFitRemoved"
+  | MDefaultDmgChanged -> "DefaultIncomingDmgChanged" | MRahDmgChanged -> "RahIncomingDmgChanged"
+let do_step o =
+  let (w, r) = step !world o in
+  world := w;
+  List.iter (fun (_, m) -> bump (kind_of m) 1) w.w_trace;
+  (match o with ORead _ | OGet _ | OKeys _ | OEffects _ -> () | _ ->
+     (* invalidations: cached entries that disappeared are visible through AttrsValueChanged *)
+     ());
+  res_s r
 
 let handle toks =
   match toks with
@@ -206,6 +224,10 @@ let handle toks =
   | ["item"; i] -> item_s !world i
   | ["fitdump"; f] -> fit_s !world f
   | ["regs"; s] -> regs_s !world s
+  | ["counters"] ->
+    let l = Hashtbl.fold (fun k v a -> (k, v) :: a) counts [] in
+    Hashtbl.reset counts;
+    "counters " ^ String.concat " " (List.map (fun (k, v) -> k ^ "=" ^ string_of_int v) (List.sort compare l))
   | ["trace"] -> "trace " ^ String.concat " " (List.rev_map msg_s (!world).w_trace)
   | _ -> "error badline"
 
